@@ -85,6 +85,19 @@ def run(R, tier, rng):
             try: e = [int(x) for x in p.unpack()]
             except Exception: e = None
             add("bit_unpack " + show(a) + " " + str(b), e, "unpack-after-reads/long", a)
+    # the bit width and the window size given as numpy integers of every width (F40): the same values as for Python ints
+    for b in (2, 16):
+        k = 64 // b
+        for n in (5, 300):
+            a = [(i * 7 + 3) % 2 ** b for i in range(n)]
+            for bt in (np.uint8, np.int8, np.int64, np.uint64):
+                try: e = [int(x) for x in BitArray.pack(np.array(a, dtype=np.uint64), bt(b)).unpack()]
+                except Exception: e = None
+                add("bit_unpack " + show(a) + " " + str(b), e, "unpack/numpy-scalar-width", a)
+                for w in (1, k, min(k, n + 2)):
+                    try: e = [int(x) for x in BitArray.pack(np.array(a, dtype=np.uint64), b).sliding_window(bt(w))]
+                    except Exception: e = None
+                    add("bit_window " + show(a) + " " + str(b) + " " + str(w), e, "window/numpy-scalar-size", a)
     out = oracle([c[0] for c in cases])
     for (line, impl, kind, nt), o in zip(cases, out):
         if o.startswith("ERR"):
